@@ -418,6 +418,13 @@ func (t *WebRTCTransport) dial(ctx context.Context, scope network.ConnManagement
 	if err != nil {
 		return nil, err
 	}
+	if p == "" {
+		// Dialed without an expected peer: the remote peer is whoever authenticated.
+		p, err = peer.IDFromPublicKey(remotePubKey)
+		if err != nil {
+			return nil, err
+		}
+	}
 
 	// Setup local and remote address for the connection
 	cp, err := w.HandshakeDataChannel.Transport().Transport().ICETransport().GetSelectedCandidatePair()
